@@ -726,6 +726,22 @@ theorem service_frame (r : Req) (m : Store) (S : Nat → Prop)
   | write => simp only [writeLE_byte, if_neg hn]
   | amo op => simp only [writeLE_byte, if_neg hn]
 
+/-- a memory of `size` bytes: if every request stays inside `[0, size)`, the responses and the first `size` cells depend
+only on the first `size` cells of the initial store, and no cell at or beyond `size` is ever written -/
+theorem seqSpec_in_range (size : Nat) : ∀ (l : List Req) (m m' : Store),
+    (∀ r ∈ l, r.addr + nbytes r.nb r.len ≤ size) → AgreeOn (· < size) m m' →
+    (seqSpec l m).1 = (seqSpec l m').1 ∧ AgreeOn (· < size) (seqSpec l m).2 (seqSpec l m').2 ∧
+    AgreeOn (fun b => size ≤ b) (seqSpec l m).2 m
+  | [], _, _, _, h => ⟨rfl, h, fun _ _ => rfl⟩
+  | r :: rs, m, m', hl, h => by
+    have hr := hl r (by simp)
+    have hc := service_congr r m m' (· < size) (fun b hb => by have := hb.2; show b < size; omega) h
+    have hf := service_frame r m (fun b => size ≤ b) (fun b hb h2 => by have := hb.2; have : size ≤ b := h2; omega)
+    have ih := seqSpec_in_range size rs _ _ (fun q hq => hl q (by simp [hq])) hc.2
+    simp only [seqSpec]
+    refine ⟨by rw [hc.1, ih.1], ih.2.1, fun b hb => ?_⟩
+    exact (ih.2.2 b hb).trans (hf b hb)
+
 theorem runLog_disjoint (region : Nat → Nat → Prop)
     (hdisj : ∀ i j b, i ≠ j → region i b → ¬ region j b) (i : Nat) :
     ∀ (log : List (Nat × Req)) (m m' : Store),
